@@ -51,6 +51,11 @@ pub struct Sx126xChip {
     pub pkt_status: [u8; 3],
     /// command status field (bits 3:1 of the status byte) reported by read commands
     pub cmd_status: u8,
+    /// the scripted command status is reported by this opcode only (others: 1); None = by every command
+    pub status_only_op: Option<u8>,
+    /// after a GetPacketStatus answered with the scripted status: the next packet (length) has arrived and the
+    /// status is back to normal
+    pub rx_len_next: Option<u8>,
     pub rssi_inst: u8,
     pub outcome: Outcome,
     pub programmed: BTreeSet<&'static str>,
@@ -101,6 +106,8 @@ impl Sx126xChip {
             rx_off: 0,
             pkt_status: [0; 3],
             cmd_status: 1,
+            status_only_op: None,
+            rx_len_next: None,
             rssi_inst: 0,
             outcome: Outcome::Done,
             programmed: BTreeSet::new(),
@@ -260,6 +267,27 @@ impl ChipModel for Sx126xChip {
     }
 
     fn transact(&mut self, w: &[u8], read_len: usize) -> Vec<u8> {
+        let op = w.first().copied();
+        let saved = self.cmd_status;
+        if let Some(o) = self.status_only_op
+            && op != Some(o)
+        {
+            self.cmd_status = 1;
+        }
+        let r = self.transact_inner(w, read_len);
+        self.cmd_status = saved;
+        if op == Some(0x14)
+            && let Some(n) = self.rx_len_next.take()
+        {
+            self.rx_len = n;
+            self.cmd_status = 1;
+        }
+        r
+    }
+}
+
+impl Sx126xChip {
+    fn transact_inner(&mut self, w: &[u8], read_len: usize) -> Vec<u8> {
         self.commands += 1;
         let Some(&op) = w.first() else { return vec![0; read_len] };
         if self.mode.asleep() {
